@@ -9,6 +9,7 @@ path where the image exists, detect_file_format returned an inspector and
 inspector.safety_check() returned normally.
 """
 from pyvc.api import (proof, load, model, fresh_bool, pick, check, implies,
+                      assume,
                       conj, disj, neg)
 
 CLI = 'oslo_utils/imageutils/cli.py'
@@ -25,6 +26,8 @@ def exit_status_contract():
     C = load(CLI)
     exists = fresh_bool('path_exists')
     isfile = fresh_bool('path_is_file')
+    # os.path: a regular file exists
+    assume(implies(isfile, exists))
     verbose = fresh_bool('verbose')
     detect = pick('detect_file_format', ['inspector', 'ImageFormatError',
                                          'OSError'])
